@@ -347,11 +347,21 @@ func (e *modelEndpoint) Transition(ctx context.Context, transitions []*core.Chan
 		h.s.Logf("ctl."+e.side, "transition -> injected whole-call error")
 		return nil, nil, false, errors.New("injected transition failure")
 	}
-	var results []*core.Entry
+	// The list arrives in the order Reconcile's map iteration produced (chosen
+	// by the runtime); outcomes are assigned, and changes applied, in path order
+	// so that "the k-th change" names the same change in every execution. The
+	// changes of one plan never overlap, so the order has no other effect.
+	results := make([]*core.Entry, len(transitions))
 	var problems []*core.Problem
+	order := make([]int, len(transitions))
+	for i := range order {
+		order[i] = i
+	}
+	sort.Slice(order, func(a, b int) bool { return transitions[order[a]].Path < transitions[order[b]].Path })
 	h.mu.Lock()
 	defer h.mu.Unlock()
-	for _, t := range transitions {
+	for _, ti := range order {
+		t := transitions[ti]
 		cur := lookup(h.trees[e.side], t.Path)
 		// A real endpoint refuses to touch content that differs from what the
 		// scan recorded (C08); the model does the same.
@@ -363,7 +373,7 @@ func (e *modelEndpoint) Transition(ctx context.Context, transitions []*core.Chan
 			expectedOld, curSync = withoutExec(t.Old), withoutExec(curSync)
 		}
 		if !deepEqual(curSync, expectedOld) || hasUnsync(cur) {
-			results = append(results, cloneEntry(t.Old))
+			results[ti] = cloneEntry(t.Old)
 			problems = append(problems, &core.Problem{Path: t.Path, Error: "content changed since scan"})
 			h.ideal = false
 			h.cycleClean = false
@@ -404,7 +414,7 @@ func (e *modelEndpoint) Transition(ctx context.Context, transitions []*core.Chan
 			h.cycleClean = false
 			problems = append(problems, &core.Problem{Path: t.Path, Error: "parent missing"})
 		}
-		results = append(results, result)
+		results[ti] = result
 		h.s.Count("probe.transitions_applied", 1)
 		h.s.Count("probe.changes_applied_"+e.side, 1)
 	}
